@@ -26,8 +26,9 @@ class Route:
     SHRINK_WIDTH = 60
 
     KEYS = ["stage", "x-user", "env"]
-    VALS = ["canary", "v1", "v12", "ca", ""]
-    REGEX = ["^v[0-9]+$", "can", ".*", "(", "^$", "v1|prod"]
+    VALS = ["canary", "v1", "v12", "ca", "", "pre-canary", "xv12"]
+    # literal patterns (no meta characters) are un-anchored too: they match anywhere in the value
+    REGEX = ["^v[0-9]+$", "can", ".*", "(", "^$", "v1|prod", "ary", "v1", "canary"]
     METHODS = ["Echo", "Ping"]
 
     @classmethod
@@ -153,6 +154,16 @@ class Route:
         c = {"lds": C("RGood", lis), "named": named, "calls": calls, "repeat": 1}
         if r.random() < 0.03:
             c["lds"] = None
+        if not getattr(cls, "_nested", False) and r.random() < 0.25:
+            # an earlier push of the listener that every router has already been used with; it is then replaced by the
+            # tables above - or removed altogether: routing must follow what is in force now
+            cls._nested = True
+            try:
+                c["prev_lds"] = cls.gen_case(r, dup_ok)["lds"]
+            finally:
+                cls._nested = False
+            if r.random() < 0.4:
+                c["lds"] = None
         return c
 
     @classmethod
@@ -162,7 +173,7 @@ class Route:
 
     @staticmethod
     def to_harness(c):
-        return {"lds": c["lds"], "named": c["named"], "calls": c["calls"], "repeat": c.get("repeat", 1)}
+        return {"lds": c["lds"], "named": c["named"], "calls": c["calls"], "repeat": c.get("repeat", 1), "prev_lds": c.get("prev_lds")}
 
     @staticmethod
     def gcall(k):
